@@ -10,12 +10,16 @@
 //! * `splice8 | splice16 be= a= b= dst= src=`, `sext be= a= byte=`, `getbit be= a= i=` (GLWE path),
 //!   `getbitlwe be= a= i=` (key-switch to LWE, decrypted with the LWE secret; prints the phase's top 2 bits),
 //!   `swap be= a= b= bit=` (`cswap` under a GGSW bit): `ok <word>[,<word>]`.
+//! * `retr be= bits= rsh= idxword= data=<w,…>`: `glwe_blind_retrieval_statefull` on the encrypted table under the directly
+//!   encrypted index word, all entries decrypted, then `…_statefull_rev`, all entries decrypted: `ok fwd=<…> rev=<…>`.
+//! * `retr1 be= size= rsh= idxword= data=<w,…>`: `GLWEBlindRetriever::alloc(size)` + `retrieve` (offset = rsh): `ok <w>`.
+//! * `sel be= bits= rsh= idxword= keys=<k,…> vals=<w,…>`: `glwe_blind_selection` on the sparse table: `ok <w>`.
 //! * `cbt be= a=`: `FheUintPreparedDebug::prepare`, per-cell noise: `ok <max log2 std per (row,col)>…`.
 use std::io::{BufRead, Write};
 use std::sync::Mutex;
 
 use poulpy_bin_fhe::bdd_arithmetic::{
-    Add, And, Cswap, FheUint, FheUintPrepared, FheUintPreparedDebug, Identity, Or, Sll, Slt, Sltu, Sra, Srl, Sub, Xor,
+    Add, And, Cswap, FheUint, GLWEBlindRetrieval, GLWEBlindRetriever, GLWEBlindSelection, FheUintPrepared, FheUintPreparedDebug, Identity, Or, Sll, Slt, Sltu, Sra, Srl, Sub, Xor,
     tests::test_suite::TestContext,
 };
 use poulpy_bin_fhe::blind_rotation::CGGI;
@@ -193,6 +197,48 @@ macro_rules! backend_impl {
                         st.tc.module.ggsw_prepare(&mut sp, &s, st.scratch.borrow());
                         st.tc.module.cswap(&mut ca, &mut cb, &sp, st.scratch.borrow());
                         format!("ok {},{}", dec(st, &ca), dec(st, &cb))
+                    }
+                    "retr" | "retr1" | "sel" => {
+                        let list = |k: &str| -> Vec<u32> {
+                            kvs(t, k).map(|s| if s == "-" { vec![] } else { s.split(',').filter_map(|x| x.parse::<u64>().ok()).map(|x| x as u32).collect() }).unwrap_or_default()
+                        };
+                        let rsh = kvn(t, "rsh", 0) as usize;
+                        let bits = kvn(t, "bits", 3) as usize;
+                        let idxword = kvn(t, "idxword", 0) as u32;
+                        let ggsw = st.tc.ggsw_infos();
+                        let e = EncryptionLayout::new_from_default_sigma(ggsw).unwrap();
+                        let mut idx_enc: FheUintPrepared<DeviceBuf<BE>, u32, BE> = FheUintPrepared::alloc_from_infos(&st.tc.module, &ggsw);
+                        idx_enc.encrypt_sk(&st.tc.module, idxword, &st.tc.sk_glwe, &e, &mut st.xe, &mut st.xa, st.scratch.borrow());
+                        let words = |v: &Vec<String>| if v.is_empty() { "-".to_string() } else { v.join(",") };
+                        if op == "retr" {
+                            let data = list("data");
+                            let mut cts: Vec<FheUint<Vec<u8>, u32>> = data.iter().map(|w| enc(st, *w)).collect();
+                            st.tc.module.glwe_blind_retrieval_statefull(&mut cts, &idx_enc, rsh, bits, st.scratch.borrow());
+                            let f: Vec<String> = cts.iter().map(|c| dec(st, c).to_string()).collect();
+                            st.tc.module.glwe_blind_retrieval_statefull_rev(&mut cts, &idx_enc, rsh, bits, st.scratch.borrow());
+                            let r: Vec<String> = cts.iter().map(|c| dec(st, c).to_string()).collect();
+                            format!("ok fwd={} rev={}", words(&f), words(&r))
+                        } else if op == "retr1" {
+                            let data = list("data");
+                            let cts: Vec<FheUint<Vec<u8>, u32>> = data.iter().map(|w| enc(st, *w)).collect();
+                            let infos = st.tc.glwe_infos();
+                            let mut retriever = GLWEBlindRetriever::alloc(&infos, kvn(t, "size", data.len() as u64) as usize);
+                            let mut res: FheUint<Vec<u8>, u32> = FheUint::alloc_from_infos(&infos);
+                            retriever.retrieve(&st.tc.module, &mut res, &cts, &idx_enc, rsh, st.scratch.borrow());
+                            format!("ok {}", dec(st, &res))
+                        } else {
+                            let keys = list("keys");
+                            let vals = list("vals");
+                            let mut cts: Vec<FheUint<Vec<u8>, u32>> = vals.iter().map(|w| enc(st, *w)).collect();
+                            let mut map: std::collections::HashMap<usize, &mut FheUint<Vec<u8>, u32>> = std::collections::HashMap::new();
+                            for (k, c) in keys.iter().zip(cts.iter_mut()) {
+                                map.insert(*k as usize, c);
+                            }
+                            let infos = st.tc.glwe_infos();
+                            let mut res: FheUint<Vec<u8>, u32> = FheUint::alloc_from_infos(&infos);
+                            GLWEBlindSelection::<u32, BE>::glwe_blind_selection(&st.tc.module, &mut res, map, &idx_enc, rsh, bits, st.scratch.borrow());
+                            format!("ok {}", dec(st, &res))
+                        }
                     }
                     "cbt" => {
                         let ca = enc(st, a);
